@@ -13,14 +13,15 @@ def claim(pid, technique, text, note, design):
     CLAIMS[pid] = dict(technique=technique, text=text, note=note, design=design)
 
 
-claim('C01', 'codec layout terms (AST abstract interpretation of encode/decode) with affine length identities',
+claim('C01', 'codec layout terms (abstract stream interpretation of encode/decode over provenance terms) with affine length identities; conversion terms folded at boundary constants',
       'For each of the 23 codec classes the encoder\'s byte layout and the decoder\'s read sequence are extracted as terms with '
       'symbolic lengths and compared: same struct, same attribute per position, bytes read = bytes written for every variable '
       'part, extents equal, dispatch literals agree with type codes, containers bounded, loops advance. An identity in symbolic '
       'lengths holds for every field value and item list, which sampling cannot give.',
-      'Trusted: CPython struct/bytes/BytesIO; A1 text fields ASCII; A2 stored fixed lengths at their default. Not decided: '
-      'value-level conversions (strip, UID(), str/bytes), i.e. that every in-range value survives them.', 'DESIGN.md section 3 C01')
-claim('C02', 'encoder layout terms compared with a transcribed table of the PS3.8 9.3 / PS3.7 D.3.3 layouts',
+      'Trusted: CPython struct/bytes/BytesIO; A2 stored fixed lengths at their default. Value conversions (strip, slicing, '
+      'codecs, UID()) are decided by folding encoder -> field padding -> decoder -> constructor terms at boundary values '
+      '(empty, one character, full field width, spaces, dots, non-ASCII); other values are not decided.', 'DESIGN.md section 3 C01, 9.6, 9.7')
+claim('C02', 'encoder layout terms compared with a transcribed table of the PS3.8 9.3 / PS3.7 D.3.3 layouts; decoder conversion terms folded at boundary constants',
       'Type codes, field order, widths, big-endian byte order, which attribute carries which standard field and what each length '
       'field governs are decided for all 23 structures against the oracle; the structural part of the converse direction (any '
       'order, unknown sub-items, several transfer syntaxes/PDVs, containers respect their length) is decided on the decoder loops.',
@@ -33,7 +34,7 @@ claim('C03', 'buffer-discipline rules over path-sensitive provenance data-flow (
       'It does not run the loop on concrete partitions; it shows the places a segmentation-dependent implementation must break.',
       'Trusted: CPython bytes/struct/deque semantics; C01/C02 for the header layout. Not decided: equality of full observable '
       'behaviour over concrete partitions of concrete streams.', 'DESIGN.md section 3 C03')
-claim('C04', 'exhaustive cell-by-cell comparison of extracted action effect summaries (path-sensitive effect data-flow over fsm.py) with a transcribed PS3.8 Table 9-10',
+claim('C04', 'exhaustive cell-by-cell comparison of extracted action effect summaries (path-sensitive effect data-flow over fsm.py; transition table read by constant propagation through its initialiser) with a transcribed PS3.8 Table 9-10',
       'All 247 cells: the 123 defined cells are compared (key set, effects with the triggering primitive type in force, next state, '
       'role branch) against the oracle transcribed from PS3.8; the 124 undefined cells are shown to have no effect by analysing the '
       'table lookup in action(). Complete for the abstraction "an action is its list of recognised effect calls".',
@@ -53,7 +54,7 @@ claim('C06', 'arithmetic/ordering rules on chunks, fragment, fragment_file and D
       'file variants agree, and the limit handed to encode is the negotiated one at its single call site.',
       'Trusted: CPython range/slice/file semantics, pydicom command-set encoding. Not decided: byte-exactness of the command set.',
       'DESIGN.md section 3 C06')
-claim('C07', 'finite typestate evaluation of DIMSEDecoder.process over all abstract (flags x marker x no-data-set) cases; table and wiring rules',
+claim('C07', 'finite typestate evaluation (interprocedural) of DIMSEDecoder.process over all abstract (flags x marker x no-data-set) cases; message-class selection per command field by constant propagation; provenance and wiring rules',
       'The completion predicate is evaluated exhaustively over the abstract cases by abstract interpretation of the per-PDV body '
       '(no execution); marker sets are checked against the encoder\'s flags, the control-byte strip against its size, delivery is '
       'dominated by completion and followed by reset, MESSAGE_TYPE agrees with the 23 command_field constants, and the '
